@@ -9,6 +9,9 @@ Functions under contract (real ASTs, re-read every run):
 import os
 import z3
 from contracts.common import *  # noqa
+from contracts import structure
+from contracts.structure import *  # noqa
+from contracts.deferred_c import *  # noqa
 from contracts import common
 from pyvc import driver
 from contracts import tokens_c
@@ -700,6 +703,9 @@ def units(tier):
     # the codec contract the string directives assume (encode succeeds iff every character is in the charset, bytes pointwise, otherwise the
     # error is reported) is DISCHARGED for the default 'bk' charset by C14's obligations, re-run here; the other charsets are stdlib codecs
     us += [("bk-tables", "unit_bk_tables", {}), ("bk-encode", "unit_bk_encode", {}), ("bk-charliteral", "unit_bk_charliteral", {})]
+    # whole programs: the statement holds wherever a statement stands (repeat body, included / linked file, any block) - contracts/structure.py
+    us += structure.units()
+    us += structure.kernel_units()
     return us
 
 
@@ -709,6 +715,9 @@ def lit(v):
 
 
 def replay(o, tree):
+    r_ = structure.replay(o, tree)
+    if r_ is not None:
+        return r_
     cfg = o.get("cfg") or {}
     w = o.get("witness") or {}
     if o.get("kind") == "bounded":
